@@ -352,9 +352,51 @@ func (fc *FnCtx) walkFields(st *State, base Val, idx []int, e ast.Expr) Val {
 		if _, ok := cur.Ty.Underlying().(*types.Pointer); ok {
 			fc.nilCheck(st, cur, e)
 		}
+		fc.guardCheck(st, cur, i, e)
 		cur = fc.readField(st, cur, i)
 	}
 	return cur
+}
+
+// guardCheck: a field listed in a `guards T.mu: ...` clause is read or written only while T.mu is held, unless the
+// object was allocated by this very function (it has not been published yet). Lock state is tracked syntactically,
+// so a helper that runs under its caller's lock needs `requires held(x.mu)`.
+func (fc *FnCtx) guardCheck(st *State, base Val, i int, e ast.Node) {
+	fc.guardCheckRW(st, base, i, e, false)
+}
+
+// write: the field itself is assigned. An entry `*f` guards what f refers to, not the reference, so it does not apply.
+func (fc *FnCtx) guardCheckRW(st *State, base Val, i int, e ast.Node, write bool) {
+	if _, ok := base.Ty.Underlying().(*types.Pointer); !ok {
+		return
+	}
+	_, su, _ := derefStruct(base.Ty)
+	n := namedOf(base.Ty)
+	if su == nil || n == nil {
+		return
+	}
+	f := su.Field(i)
+	for _, g := range fc.eng.guards {
+		if g.Type != n.Obj().Name() || (n.Obj().Pkg() != nil && n.Obj().Pkg().Path() != g.Pkg) {
+			continue
+		}
+		listed := false
+		for _, fn := range g.Fields {
+			// `!f`: discipline only - f is accessed under the lock but not havocked at acquisition (the contract of
+			// the function is then the linearised effect of its critical section)
+			if fn == f.Name() || fn == "!"+f.Name() || (!write && fn == "*"+f.Name()) {
+				listed = true
+			}
+		}
+		if !listed {
+			continue
+		}
+		if _, held := st.locks[lockID(base, g.Mutex)]; held {
+			continue
+		}
+		fc.assert(st, "guard", g.Type+"."+f.Name(), e.Pos(), "(> "+base.T+" top0)",
+			"field guarded by "+g.Mutex+" is accessed while the lock is not held")
+	}
 }
 
 func (fc *FnCtx) evalUnary(st *State, e *ast.UnaryExpr) Val {
